@@ -3,6 +3,7 @@
 package smt
 
 import (
+	"os"
 	"fmt"
 	"math/bits"
 	"sort"
@@ -287,6 +288,9 @@ func maxBits(t *Term, depth int) int {
 }
 
 // Bin builds a binary bit-vector operation with both operands of width w.
+var noACNorm = os.Getenv("VERIF_NO_ACNORM") != ""
+var noNarrow = os.Getenv("VERIF_NO_NARROW") != ""
+
 func (c *Ctx) Bin(op Op, a, b *Term) *Term {
 	if a.W != b.W {
 		panic(fmt.Sprintf("smt.Bin width mismatch %d vs %d op %d", a.W, b.W, op))
@@ -316,7 +320,7 @@ func (c *Ctx) Bin(op Op, a, b *Term) *Term {
 		}
 		// sums of sums: associative-commutative normal form (leaves sorted by id, left-deep, constant
 		// last), so that the same multiset of summands added in a different order is the same term
-		if a.Op == OAdd || b.Op == OAdd {
+		if (a.Op == OAdd || b.Op == OAdd) && !noACNorm {
 			var leaves []*Term
 			var k uint64
 			ok := true
@@ -526,6 +530,22 @@ func (c *Ctx) Concat(hi, lo *Term) *Term {
 	return c.mk(OConcat, w, 0, "", hi, lo)
 }
 
+// wideningSum: t is a tree of additions whose leaves are constants or zero-extensions of values at most w bits wide.
+func wideningSum(t *Term, w, depth int) bool {
+	if depth > 200 {
+		return false
+	}
+	switch {
+	case t.IsConst():
+		return true
+	case t.Op == OAdd:
+		return wideningSum(t.Args[0], w, depth+1) && wideningSum(t.Args[1], w, depth+1)
+	case t.Op == OZExt:
+		return t.Args[0].W <= w
+	}
+	return false
+}
+
 func (c *Ctx) Extract(a *Term, hi, lo int) *Term {
 	if hi < lo || hi >= a.W || lo < 0 {
 		panic(fmt.Sprintf("bad extract [%d:%d] of width %d", hi, lo, a.W))
@@ -574,8 +594,11 @@ func (c *Ctx) Extract(a *Term, hi, lo int) *Term {
 		if lo == 0 {
 			return c.Bin(a.Op, c.Extract(a.Args[0], hi, 0), c.Extract(a.Args[1], hi, 0))
 		}
-		if hi+1 < a.W {
-			// bits hi..lo depend on the low hi+1 bits of the operands only: compute in the narrow width
+		if hi+1 < a.W && !noNarrow && a.Op == OAdd && wideningSum(a, hi+1, 0) {
+			// a sum of zero-extended narrow values (e.g. byte sums computed in 32- or 64-bit ints): bits
+			// hi..lo depend on the low hi+1 bits of the operands only, so compute it in that width - the same
+			// sum written with another int width then becomes the same term. (Restricted to such sums: doing
+			// this for arbitrary arithmetic made other lemmas much harder for the solver.)
 			return c.Extract(c.Extract(a, hi, 0), hi, lo)
 		}
 	case ONeg:
